@@ -436,7 +436,7 @@ def rules(ctx):
     r3_read(ctx)
     r4_out_of_place(ctx)
     r5_clone(ctx)
-    # r6_purity(ctx)
+    r6_purity(ctx)
     ctx.trust("CPython ast; Python dict semantics; torch out-of-place semantics of methods whose name does not end in '_'")
     ctx.assume("sorted_children / sorted_ancestors of VariablesDAG are the exact transitive closures in topological order (C15)")
 
